@@ -4,17 +4,21 @@ import itertools
 import numpy as np
 
 from harness.common import enc, Z, B, opt, to_zs, is_err, err_code, kids, tag
+from harness import c20_history as H
 
 PROP = 'C20'
-GENERATORS = ['gen_array']
+GENERATORS = ['gen_array', 'gen_arraypure']
 TRUSTED = [
     'translator tools/py2gallina.py (find_chunk_shape, iterate_chunks, combine_slices are regenerated from glue/utils/array.py on every run)',
+    'tools/gen/gen_arraypure.py: ast analysis of the helper module (decorators, module state, aliasing; flow-insensitive may-alias) and the translation of the two lines of view_shape; the numpy indexing under view_shape is the opaque operation np_index_shape of the model, tied to numpy by the exhaustive stream view_shape_scalar',
+    'hand models of round 4: np_index_shape (numpy reading of scalar index items incl. scalar booleans, None, Ellipsis), the categorical object heap (cstep: buffers, views, lazily cached categories / codes); the categories setter is NOT in the model (known finding categories-setter-keeps-stale-codes)',
+    'history stream: "in isolation" = the dependency chain of the call on a freshly executed copy of glue/utils/array.py (state kept outside that module, e.g. inside numpy / pandas, is shared)',
     'Common.PyInt.slice_indices models CPython slice.indices: tied by the exhaustive correspondence stream `slice_indices`',
     'hand models: view_shape (basic indexing), unbroadcast/broadcast_back (stride flags), categories/codes (values mapped to their rank in Python sort order)',
     'numpy indexing / broadcasting and pandas.factorize are the platform (oracle side)',
 ]
 ASSUMPTIONS = ['0-d shapes are outside the stated domain (iterate_chunks(()) raises IndexError)',
-               'view_shape model covers basic indexing (ints, slices, shorter tuples); index-array and boolean-mask views are checked by the numpy oracle only']
+               'view_shape model covers scalar index items (ints, scalar booleans, None, Ellipsis, slices, tuples of them); index-array, list and boolean-mask views are checked by the numpy oracle only']
 
 
 def sl_enc(s):
@@ -250,12 +254,63 @@ def stream_view_shape(R, view_shape):
         for view in views:
             nadv += 1
             real = np.zeros(sh)[view].shape if view is not None else tuple(sh)
-            impl = tuple(view_shape(sh, view))
+            try:
+                impl = tuple(view_shape(sh, view))
+            except Exception as exc:        # numpy accepts the view: an exception is a wrong prediction, not a crash of the check
+                impl = 'raises %s' % type(exc).__name__
             R.count(('vsadv', sh, repr(view)), nontrivial=True, stream='view_shape_advanced')
             if impl != real:
                 R.fail('oracle', {'stream': 'view_shape_advanced', 'shape': sh, 'view': repr(view)}, {'view_shape': impl, 'numpy': real})
     R.stream('view_shape', basic_cases=len(cases), advanced_cases=nadv,
              bound='shapes of 1..3 dims over sizes %s; every int in [-n-1,n], 8 slice forms, tuples shorter/longer than ndim' % sizes)
+
+
+def stream_view_shape_scalar(R, view_shape):
+    """every tuple view of up to 3/4 scalar items of EVERY kind (ints in and out of range, True / False, None, Ellipsis, slices)
+    on a few shapes: model np_index_shape (through the translated view_shape) vs view_shape vs numpy itself"""
+    items = [0, 1, -1, 3, True, False, None, Ellipsis, slice(None), slice(1, None), slice(None, None, -2)]
+    shs = R.pick([(3,), (2, 3), (0, 2), (2, 1, 3)], [(3,), (1,), (2, 3), (0, 2), (3, 4), (2, 1, 3), (2, 2, 2)])
+    maxlen = R.pick(4, 5)
+
+    def e_enc(x):
+        if x is None:
+            return (3, [])
+        if x is Ellipsis:
+            return (4, [])
+        if isinstance(x, bool):
+            return (2, [1 if x else 0])
+        if isinstance(x, int):
+            return (1, [x])
+        return sl_enc(x)
+    cases = []
+    for sh in shs:
+        for ln in range(0, maxlen + 1):
+            for v in itertools.product(items, repeat=ln):
+                cases.append((sh, v))
+        for x in items:
+            cases.append((sh, x))          # the bare item, not wrapped in a tuple
+    outs = R.model([enc((20, [Z(sh), ((0, []) if v is None else (1, [e_enc(x) for x in (v if isinstance(v, tuple) else (v,))]))])) for sh, v in cases])
+    for (sh, v), o in zip(cases, outs):
+        if v is None:
+            real = tuple(sh)
+        else:
+            try:
+                real = np.zeros(sh)[v].shape
+            except IndexError:
+                real = 'IndexError'
+        try:
+            impl = tuple(view_shape(sh, v))
+        except IndexError:
+            impl = 'IndexError'
+        model = 'IndexError' if is_err(o) else tuple(to_zs(kids(o)[0]))
+        hasbool = isinstance(v, bool) or (isinstance(v, tuple) and any(isinstance(x, bool) for x in v))
+        R.count(('vsx', sh, repr(v)), nontrivial=real != 'IndexError', stream='view_shape_scalar', scalar_bool=hasbool)
+        if impl != model:
+            R.fail('correspondence', {'stream': 'view_shape_scalar', 'shape': sh, 'view': repr(v)}, {'model': model, 'impl': impl})
+        if impl != real:
+            R.fail('oracle', {'stream': 'view_shape_scalar', 'shape': sh, 'view': repr(v)}, {'view_shape': impl, 'numpy': real})
+    R.stream('view_shape_scalar', cases=len(cases), exhaustive=True,
+             bound='shapes %s; every tuple of <= %d items over %d scalar items (ints in / out of range, True, False, None, Ellipsis, 3 slices) and every bare item' % (shs, maxlen, len(items)))
 
 
 def stream_unbroadcast(R, unbroadcast, broadcast_arrays_minimal):
@@ -435,6 +490,145 @@ def stream_index_lookup(R, categorical_ndarray):
     R.stream('index_lookup', cases=len(cases), bound='arrays of length <= 4/5 over 3 letters + None + a value outside the items, 4 item lists, 3 alphabets (sampled)')
 
 
+def _hist_report(R, calls, eager, fails, stream, do_shrink=True):
+    """one oracle failure per failing history (the first problem; known-finding failures only when nothing else failed)"""
+    fresh = [f for f in fails if f['key'] is None]
+    f = (fresh or fails)[0]
+    if do_shrink and len(calls) > 2:
+        want_key = f['key']
+        small = H.shrink(calls, eager, lambda fs: any(x['key'] == want_key for x in fs))
+        if len(small) < len(calls):
+            fs2 = [x for x in H.check_history(small, eager) if x['key'] == want_key]
+            if fs2:
+                calls, f = small, fs2[0]
+    R.fail('oracle', {'stream': stream, 'history': calls, 'eager_observation': eager, 'at_call': f['at']},
+           {'why': f['why'], 'detail': f['detail']}, key=f['key'])
+
+
+def stream_history(R):
+    """call histories: every ordered pair of distinct calls over the alphabet + random longer sequences; categorical
+    object histories (construction / codes / categories / re-wrapping / slicing / views / categories setter)"""
+    rng = R.subrng('history')
+    vs = H.view_shape_calls()
+    others = H.other_helper_calls()
+    npairs = 0
+    # the model's answer for every view_shape call of the alphabet the model covers (scalar items of every kind); it is
+    # compared with what the call returns INSIDE every history
+    vs_model = {}
+    encs = [(H.call_key(c), H.enc_view_call(c)) for c in vs]
+    encs = [(k, e) for k, e in encs if e is not None]
+    for (k, e), o in zip(encs, R.model([enc(e) for k, e in encs])):
+        vs_model[k] = ['raise', 'IndexError'] if is_err(o) else ['ok', tuple(to_zs(kids(o)[0]))]
+
+    def corr_view_shape(hist, info, stream):
+        for k, c in enumerate(hist):
+            if c['fn'] != 'view_shape':
+                continue
+            want = vs_model.get(H.call_key(c))
+            if want is None:
+                continue
+            got = info['outcomes'][k]
+            got = ['ok', tuple(int(x) for x in info['results'][k])] if got[0] == 'ok' else got
+            if got != want:
+                R.fail('correspondence', {'stream': stream, 'history': hist, 'at_call': k}, {'model': want, 'impl': got})
+    # --- every ordered pair of distinct view_shape calls on the same shape value (tuple, list and np.int64 spellings of
+    #     (3, 4) are the same shape), and every ordered pair of distinct calls of each other helper
+    groups = {}
+    spell = {}
+    for c in vs:
+        sh = H.plain_shape(c['args'][0])
+        first = [x for x in H.shape_specs() if H.plain_shape(x) == sh][0]
+        if c['args'][0] == first:
+            groups.setdefault(('view_shape', sh), []).append(c)
+        else:
+            spell.setdefault(H.call_key(c['args'][1]), []).append(c)
+    for c in others:
+        groups.setdefault((c['fn'],), []).append(c)
+    pair_list = []
+    for g, calls in sorted(groups.items(), key=lambda kv: repr(kv[0])):
+        pair_list += [(g[0], a, b) for a, b in itertools.permutations(calls, 2)]
+    # other spellings of the same shape (list, tuple of np.int64): against the first spelling with the same view, both orders,
+    # and against the views that are equal-but-not-identical to it
+    first34 = groups[('view_shape', (3, 4))]
+    for vkey, cs in sorted(spell.items()):
+        for c in cs:
+            for a in first34:
+                if a['args'][1] == c['args'][1] or rng.random() < 0.15:
+                    pair_list += [('view_shape', a, c), ('view_shape', c, a)]
+    for g0, a, b in pair_list:
+        hist = [a, b]
+        info = {}
+        fails = H.check_history(hist, eager=False, info=info)
+        corr_view_shape(hist, info, 'history_pairs')
+        npairs += 1
+        R.count(('hist2', H.call_key(a), H.call_key(b)), nontrivial=True, stream='history_pairs', helper=g0)
+        if fails:
+            _hist_report(R, hist, False, fails, 'history_pairs')
+    # --- cross-helper pairs and longer random sequences over the whole alphabet
+    allc = vs + others
+    nrand = R.pick(1500, 8000)
+    for i in range(nrand):
+        n = rng.choice([2, 2, 3, 4, 6, 9])
+        hist = [rng.choice(allc) for _ in range(n)]
+        eager = rng.random() < 0.5
+        info = {}
+        fails = H.check_history(hist, eager, info=info)
+        corr_view_shape(hist, info, 'history_random')
+        R.count(('histN', tuple(H.call_key(c) for c in hist), eager), nontrivial=True, stream='history_random', hist_len=n)
+        if fails:
+            _hist_report(R, hist, eager, fails, 'history_random')
+    # --- long sessions: one module copy that has seen more than a thousand calls (caches that only misbehave once they are
+    #     full or after many different keys); reported without shrinking, cut after the failing call
+    nlong = 0
+    for i in range(R.pick(2, 6)):
+        hist = [rng.choice(allc) for _ in range(R.pick(1200, 3000))]
+        info = {}
+        fails = H.check_history(hist, False, info=info)
+        corr_view_shape(hist, info, 'history_long')
+        nlong += len(hist)
+        R.count(('histL', i, len(hist)), nontrivial=True, stream='history_long')
+        if fails:
+            f = fails[0]
+            cut = hist[:f['at'] + 1]
+            fs2 = H.check_history(cut, False)
+            _hist_report(R, cut if fs2 else hist, False, fs2 or fails, 'history_long', do_shrink=False)
+    # --- categorical object histories
+    ncat = 0
+    cat_lines, cat_impl = [], []
+    for hist in H.cat_histories(2, rng, R.pick(250, 3000), nbases=R.pick(2, 3), small=R.quick()):
+        # histories of up to two calls after the constructor are observed both ways; longer ones lazily, and eagerly too
+        # for a seeded quarter (all of them in the thorough tier)
+        for eager in ((False, True) if (len(hist) <= 2 or not R.quick() or rng.random() < 0.25) else (False,)):
+            info = {}
+            fails = H.check_history(hist, eager, info=info)
+            ncat += 1
+            mo = H.cat_model_ops(hist)
+            if mo is not None and not fails:
+                ops, universe, obj_of = mo
+                try:
+                    cat_impl.append((hist, eager, H.cat_impl_view(hist, info['results'], universe, obj_of)))
+                    cat_lines.append(enc((21, ops)))
+                except Exception as exc:
+                    R.fail('correspondence', {'stream': 'history_categorical', 'history': hist}, {'impl': 'cannot be read: %r' % (exc,)})
+            R.count(('histC', tuple(H.call_key(c) for c in hist), eager), nontrivial=len(hist) > 2, stream='history_categorical',
+                    cat_hist_len=len(hist))
+            if fails:
+                _hist_report(R, hist, eager, fails, 'history_categorical')
+    for (hist, eager, (per_op, objs)), o in zip(cat_impl, R.model(cat_lines)):
+        m_ops = [('obj', kids(t)[0][0]) if tag(t) == 1 else ('vals', to_zs(kids(t)[0])) for t in kids(kids(o)[0])]
+        m_objs = [tuple(to_zs(x) for x in kids(t)) for t in kids(kids(o)[1])]
+        if m_ops != per_op or m_objs != [tuple(x) for x in objs]:
+            R.fail('correspondence', {'stream': 'history_categorical', 'history': hist, 'eager_observation': eager},
+                   {'model': [m_ops, m_objs], 'impl': [per_op, objs]})
+    R.sample({'history': [{'fn': 'view_shape', 'args': [['tuple', [3, 4]], ['int', 1]]}, {'fn': 'view_shape', 'args': [['tuple', [3, 4]], ['bool', True]]}]})
+    R.stream('history', model_view_shape_calls=len(vs_model), model_categorical_histories=len(cat_lines), pairs=npairs, random_sequences=nrand, long_session_calls=nlong, categorical_histories=ncat, alphabet=len(allc),
+             bound='every ordered pair of distinct calls per helper (view_shape: per shape value, %d views incl. int / bool / np.bool_ / np.int64 / float / '
+                   'None / Ellipsis / slices / lists / index and mask arrays / mixed tuples); random sequences of 2..9 calls over all helpers; '
+                   'categorical histories: every op sequence of length <= %d after the constructor over %d ops per live array, observed lazily and eagerly, '
+                   '+ random ones of length <= 7; each history on its own freshly executed copy of glue/utils/array.py'
+                   % (len(H.view_alphabet((3, 4))), 2, len(H.cat_ops(H.CAT_BASES[0], [0], small=R.quick()))))
+
+
 def run(R):
     from glue.utils.array import (combine_slices, find_chunk_shape, iterate_chunks, view_shape, unbroadcast,
                                   broadcast_arrays_minimal, categorical_ndarray)
@@ -446,9 +640,11 @@ def run(R):
     stream_combine(R, combine_slices)
     stream_chunks(R, find_chunk_shape, iterate_chunks)
     stream_view_shape(R, view_shape)
+    stream_view_shape_scalar(R, view_shape)
     stream_unbroadcast(R, unbroadcast, broadcast_arrays_minimal)
     stream_categorical(R, categorical_ndarray)
     stream_index_lookup(R, categorical_ndarray)
+    stream_history(R)
 
 
 def replay(R, case):
@@ -474,6 +670,12 @@ def replay(R, case):
     elif st.startswith('find_chunk_shape'):
         r = A.find_chunk_shape(tuple(case['shape']), case['n_max'])
         out.update(impl=list(r), violates=int(np.prod(r)) > case['n_max'])
+    elif st.startswith('history'):
+        fails = H.check_history(case['history'], bool(case.get('eager_observation')))
+        known = [f for f in fails if f['key'] is not None]
+        fresh = [f for f in fails if f['key'] is None]
+        out.update(problems=[{'at_call': f['at'], 'why': f['why'], 'detail': f['detail'], 'known_finding': f['key']} for f in fails[:5]],
+                   violates=bool(fresh) or bool(known))
     else:
         out['note'] = 'replay by re-running the stream: ./check C20 --tier quick'
     return out
